@@ -605,6 +605,7 @@ func runC04(c *run.Ctx) {
 	hist += c04OmittedAndShared(c, s, sdl, g, types)
 	hist += c04Relaxed(c)
 	hist += c04Unsigned(c)
+	hist += c04OneVarsMap(c)
 	// under reflection the "resolver" is a Go method: each parameter must receive the value the client wrote for ITS argument
 	// (order given by RegisterField, also when registered after a first request) - judged against the direct Go call
 	c02Methods(c)
@@ -1393,6 +1394,61 @@ func c04Unsigned(c *run.Ctx) int {
 				c.Violation("c04-unsigned", map[string]interface{}{"sdl": sdl, "document": rq.text, "variable": fmt.Sprintf("%T(%d)", v, u), "diag": diag, "response": fmt.Sprint(res)})
 			}
 		}
+	}
+	return done
+}
+
+// c04OneVarsMap: a caller that keeps ONE variables map and hands it to several requests (a batch layer). What a request
+// leaves unprovided is decided by that request's own defaults - not by what an earlier request's defaults were.
+func c04OneVarsMap(c *run.Ctx) int {
+	const sdl = `type Query { f(a: Int): String n(a: Int!): String g(s: String = "schema default"): String }`
+	steps := []struct {
+		text string
+		want string // rendered args of the single call; "" = must be refused
+	}{
+		{`query($limit: Int = 5){ f(a: $limit) }`, `{"a":5}`},
+		{`query($limit: Int = 10){ f(a: $limit) }`, `{"a":10}`},
+		{`query($limit: Int){ f(a: $limit) }`, `{"a":null}|{}`},
+		{`query($limit: Int!){ n(a: $limit) }`, ""},
+		{`query($s: String = "first"){ g(s: $s) }`, `{"s":"first"}`},
+		{`query($s: String){ g(s: $s) }`, `{"s":null}|{}|{"s":"schema default"}`},
+		{`query($limit: Int = 7, $s: String = "second"){ f(a: $limit) }`, `{"a":7}`},
+	}
+	done := 0
+	for round := 0; round < c.N(20, 300); round++ {
+		r := c.Rand(1300000 + round)
+		ro := &c04RelaxedRoot{}
+		root := ggql.NewRoot(ro)
+		if err := root.ParseString(sdl); err != nil {
+			c.Violation("c04-schema-rejected", map[string]interface{}{"error": err.Error()})
+			return done
+		}
+		shared := map[string]interface{}{} // the caller's one map: it never provides anything
+		var hist []string
+		for k := 0; k < 3+r.Intn(5); k++ {
+			st := steps[r.Intn(len(steps))]
+			ro.calls = nil
+			var res map[string]interface{}
+			pv, _ := run.Protect(func() { res = root.ResolveString(st.text, "", shared) })
+			hist = append(hist, st.text)
+			done++
+			c.Count("requests_sharing_one_variables_map", 1)
+			got := ""
+			if len(ro.calls) > 0 {
+				got = ref.Render(ref.Canon(ro.calls[0]))
+			}
+			ok := pv == nil
+			if st.want == "" {
+				ok = ok && len(ro.calls) == 0 && res["errors"] != nil
+			} else {
+				ok = ok && len(ro.calls) == 1 && strings.Contains("|"+st.want+"|", "|"+got+"|")
+			}
+			if !ok {
+				c.Violation("c04-one-variables-map", map[string]interface{}{"sdl": sdl, "history": hist, "resolver_received": got, "expected": st.want, "response": fmt.Sprint(res), "panic": fmt.Sprint(pv)})
+				break
+			}
+		}
+		c.Eval("one-vars-map|"+strings.Join(hist, "|"), true)
 	}
 	return done
 }
